@@ -426,51 +426,23 @@ class append_(ContractBase):
 
 
 # ------------------------------------------------------------------------------------------------ replay of find()
-def _find_replay(model, vc):
-    """rebuild the query, the clock and the day directories from the solver's model in a scratch chronicles tree, run the
-    real chronicle.find with a recording _load, and judge the recorded day walk with a plain Python oracle"""
+def _run_find_case(after, before, limit, succeeded, now, existing):
+    """run the real chronicle.find on a scratch chronicles tree with exactly the day directories `existing`, a recording
+    _load (two entries per day) and a fixed clock; judge the recorded day walk and the slice with a plain Python oracle"""
     import datetime as dtm
     import os
     import shutil
     import tempfile
     import dawgie.context
     import dawgie.pl.logger.chronicle as chron
-    ev = lambda t: model.eval(t, model_completion=True)
-    base = z3.simplify(days_from_civil(z3.IntVal(2000), z3.IntVal(1), z3.IntVal(1))).as_long()
-
-    def instant(t):
-        days, us = ev(DT.get(t, 'days')).as_long(), ev(DT.get(t, 'us')).as_long()
-        return dtm.datetime(2000, 1, 1, tzinfo=dtm.UTC) + dtm.timedelta(days=days - base, microseconds=us)
-
-    def opt_dt(o):
-        return None if z3.is_true(ev(ODT.is_none(o))) else instant(ODT.val(o))
-    try:
-        after, before = opt_dt(vc.inputs['after']), opt_dt(vc.inputs['before'])
-        lim_t = vc.inputs['limit']
-        limit = None if z3.is_true(ev(OINT.is_none(lim_t))) else ev(OINT.val(lim_t)).as_long()
-        succeeded = z3.is_true(ev(vc.inputs['succeeded']))
-        now = instant(vc.inputs['now']) if 'now' in vc.inputs else None
-    except (OverflowError, ValueError) as e:
-        return {'reproduced': False, 'error': 'model outside the datetime range: %s' % e}
-    lo = after or dtm.datetime(1980, 1, 1, tzinfo=dtm.UTC)
-    hi = before or now or dtm.datetime(2030, 1, 1, tzinfo=dtm.UTC)
-    span = (hi.date() - lo.date()).days
-    if span > 20000 or span < 0:
-        lo = hi - dtm.timedelta(days=min(max(span, 0), 20000))
     root = tempfile.mkdtemp(prefix='c18_replay_')
     saved_dbs, saved_load, saved_dt = dawgie.context.data_dbs, chron._load, chron.datetime
     calls = []
+    existing = sorted(set(existing), reverse=True)
+    inp = {'after': str(after), 'before': str(before), 'limit': limit, 'succeeded': succeeded, 'now': str(now), 'day_directories': [str(x) for x in existing]}
     try:
-        # a day directory exists exactly where the model says so (days around the window)
-        existing = []
-        d = hi.date() + dtm.timedelta(days=2)
-        stop = lo.date() - dtm.timedelta(days=40)
-        while d >= stop:
-            n = (d - dtm.date(2000, 1, 1)).days + base
-            if z3.is_true(ev(DD(z3.IntVal(n)))):
-                os.makedirs(os.path.join(root, 'chronicles', '%04d' % d.year, '%02d' % d.month, '%02d' % d.day))
-                existing.append(d)
-            d -= dtm.timedelta(days=1)
+        for d in existing:
+            os.makedirs(os.path.join(root, 'chronicles', '%04d' % d.year, '%02d' % d.month, '%02d' % d.day))
 
         def fake_load(a, b, journal, s):
             y, m, dd = [int(x) for x in journal.split(os.sep)[-3:]]
@@ -480,12 +452,10 @@ def _find_replay(model, vc):
         class FakeDT(dtm.datetime):
             @classmethod
             def now(cls, tz=None):
-                t = now or hi
-                return cls(t.year, t.month, t.day, t.hour, t.minute, t.second, t.microsecond, tzinfo=dtm.UTC)
+                return cls(now.year, now.month, now.day, now.hour, now.minute, now.second, now.microsecond, tzinfo=dtm.UTC)
         dawgie.context.data_dbs = root
         chron._load = fake_load
         chron.datetime = FakeDT
-        inp = {'after': str(after), 'before': str(before), 'limit': limit, 'succeeded': succeeded, 'now': str(now), 'day_directories': [str(x) for x in existing]}
         try:
             got = chron.find(after, before, limit, succeeded)
         except ValueError:
@@ -496,7 +466,7 @@ def _find_replay(model, vc):
         eff_limit = None if (after is not None and before is not None) else limit
         a_eff = after or dtm.datetime(1980, 1, 1, tzinfo=dtm.UTC)
         b_eff = before or FakeDT.now()
-        window = [x for x in existing if a_eff.date() <= x <= b_eff.date()]          # newest first already
+        window = [x for x in existing if a_eff.date() <= x <= b_eff.date()]
         problems = []
         days = [c_[0] for c_ in calls]
         if days != sorted(set(days), reverse=True):
@@ -505,7 +475,6 @@ def _find_replay(model, vc):
             problems.append('a day outside the window was read')
         if any((c_[1], c_[2], c_[3]) != (a_eff, b_eff, succeeded) for c_ in calls):
             problems.append('_load was not given the window and outcome of the caller')
-        want_days = window if eff_limit is None else window[:max(1, -(-eff_limit // 2))]     # two entries per day in this replay
         if eff_limit is None and days != window:
             problems.append('not every day directory of the window was read')
         if eff_limit is not None and (days != window[:len(days)] or (len(days) < len(window) and 2 * len(days) < eff_limit)):
@@ -520,6 +489,56 @@ def _find_replay(model, vc):
     finally:
         dawgie.context.data_dbs, chron._load, chron.datetime = saved_dbs, saved_load, saved_dt
         shutil.rmtree(root, ignore_errors=True)
+
+
+def _find_replay(model, vc):
+    """rebuild the query, the clock and the day directories from the solver's model and run the real find; the model of a
+    loop-step obligation describes an intermediate state, so when it does not reproduce, the query is varied over a small
+    grid (after/before present or not, limits 1..5, day directories across a month and a year boundary)"""
+    import datetime as dtm
+    ev = lambda t: model.eval(t, model_completion=True)
+    base = z3.simplify(days_from_civil(z3.IntVal(2000), z3.IntVal(1), z3.IntVal(1))).as_long()
+    first = None
+    try:
+        def instant(t):
+            days, us = ev(DT.get(t, 'days')).as_long(), ev(DT.get(t, 'us')).as_long()
+            return dtm.datetime(2000, 1, 1, tzinfo=dtm.UTC) + dtm.timedelta(days=days - base, microseconds=us)
+        opt_dt = lambda o: None if z3.is_true(ev(ODT.is_none(o))) else instant(ODT.val(o))
+        after, before = opt_dt(vc.inputs['after']), opt_dt(vc.inputs['before'])
+        lim_t = vc.inputs['limit']
+        limit = None if z3.is_true(ev(OINT.is_none(lim_t))) else ev(OINT.val(lim_t)).as_long()
+        succeeded = z3.is_true(ev(vc.inputs['succeeded']))
+        now = instant(vc.inputs['now']) if 'now' in vc.inputs else (before or dtm.datetime(2030, 1, 1, tzinfo=dtm.UTC))
+        lo = after or dtm.datetime(1980, 1, 1, tzinfo=dtm.UTC)
+        hi = before or now
+        span = min(max((hi.date() - lo.date()).days, 0), 20000)
+        existing = []
+        d = hi.date() + dtm.timedelta(days=2)
+        stop = hi.date() - dtm.timedelta(days=span + 40)
+        while d >= stop and d.year >= 2:
+            if z3.is_true(ev(DD(z3.IntVal((d - dtm.date(2000, 1, 1)).days + base)))):
+                existing.append(d)
+            d -= dtm.timedelta(days=1)
+        first = _run_find_case(after, before, limit, succeeded, now, existing)
+        if first.get('reproduced'):
+            return first
+    except (OverflowError, ValueError) as e:
+        first = {'reproduced': False, 'error': 'model outside the datetime range: %s' % e}
+    U = dtm.UTC
+    days = [dtm.date(2023, 12, 30), dtm.date(2023, 12, 31), dtm.date(2024, 1, 1), dtm.date(2024, 2, 28), dtm.date(2024, 3, 1), dtm.date(2024, 3, 2)]
+    now = dtm.datetime(2024, 3, 2, 12, 0, 0, tzinfo=U)
+    afters = [None, dtm.datetime(2023, 12, 31, 6, 0, 0, tzinfo=U), dtm.datetime(2024, 1, 1, 0, 0, 0, tzinfo=U)]
+    befores = [None, dtm.datetime(2024, 3, 1, 18, 0, 0, tzinfo=U), dtm.datetime(2024, 1, 1, 23, 0, 0, tzinfo=U)]
+    for a in afters:
+        for b in befores:
+            for lim in (None, 1, 2, 3, 5):
+                if a is None and b is None and lim is None:
+                    continue
+                r = _run_find_case(a, b, lim, True, now, days)
+                if r.get('reproduced'):
+                    r['found_by'] = 'varying the counter-model over a small grid of queries'
+                    return r
+    return first
 
 
 find.replay = staticmethod(_find_replay)
